@@ -41,7 +41,11 @@ def berespLine : List String → String
     | some b, some v, some s, some en, some ss =>
       let cfg : Cfg := { be := b, ver := if v = 10 then 0 else if v = 11 then 1 else 2, stream := s,
                          head := meth = "H" }
-      berespOut (relay cfg ss en)
+      -- (run-time check of the one unproved hypothesis of `c10_truncated_after_head_closes`, `hpt`, on the
+      --  state the backend stream ends in: a self-chunked response has no known remaining length)
+      let pre := ss.foldl (onData cfg) {}
+      let hptBad := pre.sendChunked && decide (pre.scratch > 0) && pre.dc.isNone
+      berespOut (relay cfg ss en) ++ (if hptBad then " HPT-VIOLATED" else "")
     | _, _, _, _, _ => "bad-op"
   | "dechunk" :: _mf :: sc :: segs =>
     match segs.mapM ofHex with
